@@ -1,4 +1,4 @@
-import RSocketModel.Lease
+import RSocketModel.Proofs.C14Lemmas
 /-!
 # C14 — Lease: no request without a valid lease, never more than granted
 Property theorems only. All statements are for every sequence of LEASE frames and requests at
@@ -6,198 +6,9 @@ non-decreasing virtual times.
 -/
 namespace RSocketModel.Lease
 
-theorem allow_true (l : LeaseSt) (now : Nat) (h : (allow l now).1 = true) :
-    now < l.created + l.ttl ∧ l.used < l.max ∧ (allow l now).2 = { l with used := l.used + 1 } := by
-  unfold allow at h ⊢
-  split at h
-  · simp at h
-  · simp only [decide_eq_true_eq] at h
-    exact ⟨by omega, by omega, by simp [*]⟩
-
-theorem allow_snd (l : LeaseSt) (now : Nat) :
-    (allow l now).2.max = l.max ∧ (allow l now).2.created = l.created ∧ (allow l now).2.ttl = l.ttl ∧
-    l.used ≤ (allow l now).2.used := by
-  unfold allow; split <;> simp
-
-/-- cannot grant any more: expired or exhausted -/
-def Spent (l : LeaseSt) (now : Nat) : Prop := l.created + l.ttl ≤ now ∨ l.max ≤ l.used
-
-theorem spent_mono (l : LeaseSt) (a b : Nat) (h : Spent l a) (hab : a ≤ b) : Spent l b := by
-  rcases h with h | h
-  · exact Or.inl (by omega)
-  · exact Or.inr h
-
-theorem allow_false_spent (l : LeaseSt) (now : Nat) (h : (allow l now).1 = false) : Spent (allow l now).2 now := by
-  unfold allow at h ⊢
-  split
-  · exact Or.inl (by assumption)
-  · rename_i hne
-    simp only [hne, if_false, decide_eq_false_iff_not] at h
-    exact Or.inr (by simp; omega)
-
-theorem spent_allow (l : LeaseSt) (now : Nat) (h : Spent l now) : (allow l now).1 = false ∧ Spent (allow l now).2 now := by
-  unfold allow
-  rcases h with h | h
-  · simp [h]; exact Or.inl h
-  · split
-    · exact ⟨rfl, Or.inr h⟩
-    · refine ⟨by simp; omega, Or.inr (by simp; omega)⟩
-
 /-! ### the drain loop of `handle_lease` -/
 
-theorem drain_used (l : LeaseSt) (now : Nat) (q : List Nat) (sent : List (Nat × Nat)) :
-    l.used + ((drain l now q sent).2.2.length - sent.length) ≤ (drain l now q sent).1.used := by
-  induction q generalizing l sent with
-  | nil => simp [drain]
-  | cons r rest ih =>
-    rcases h : allow l now with ⟨ok, l'⟩
-    have hs := allow_snd l now
-    rw [h] at hs
-    dsimp only at hs
-    cases ok
-    · simp only [drain, h]; simp; omega
-    · have := ih l' (sent ++ [(r, now)])
-      obtain ⟨_, _, heq⟩ := allow_true l now (by rw [h])
-      rw [h] at heq
-      dsimp only at heq
-      subst heq
-      simp only [drain, h]
-      simp only [List.length_append, List.length_cons, List.length_nil] at this
-      omega
-
-
-theorem drain_conserves (l : LeaseSt) (now : Nat) (q : List Nat) (sent : List (Nat × Nat)) :
-    (drain l now q sent).2.2.map (·.1) ++ (drain l now q sent).2.1 = sent.map (·.1) ++ q := by
-  induction q generalizing l sent with
-  | nil => simp [drain]
-  | cons r rest ih =>
-    rcases h : allow l now with ⟨ok, l'⟩
-    cases ok <;> simp [drain, h, ih]
-
-theorem drain_lease (l : LeaseSt) (now : Nat) (q : List Nat) (sent : List (Nat × Nat)) :
-    (drain l now q sent).1.max = l.max ∧ (drain l now q sent).1.created = l.created ∧
-    (drain l now q sent).1.ttl = l.ttl ∧ l.used ≤ (drain l now q sent).1.used := by
-  induction q generalizing l sent with
-  | nil => simp [drain]
-  | cons r rest ih =>
-    rcases h : allow l now with ⟨ok, l'⟩
-    have hs := allow_snd l now
-    rw [h] at hs
-    dsimp only at hs
-    cases ok
-    · simpa [drain, h] using hs
-    · obtain ⟨i1, i2, i3, i4⟩ := ih l' (sent ++ [(r, now)])
-      simp only [drain, h]
-      exact ⟨by rw [i1, hs.1], by rw [i2, hs.2.1], by rw [i3, hs.2.2.1], by omega⟩
-
-theorem drain_spent (l : LeaseSt) (now : Nat) (q : List Nat) (sent : List (Nat × Nat)) :
-    (drain l now q sent).2.1 ≠ [] → Spent (drain l now q sent).1 now := by
-  induction q generalizing l sent with
-  | nil => simp [drain]
-  | cons r rest ih =>
-    rcases h : allow l now with ⟨ok, l'⟩
-    cases ok
-    · intro _
-      have := allow_false_spent l now (by rw [h])
-      simpa [drain, h] using this
-    · simpa [drain, h] using ih l' (sent ++ [(r, now)])
-
-/-- what the loop sends: an extension of `sent` by at most `max − used` entries, all stamped `now`,
-and only if the lease is still within its time-to-live -/
-theorem drain_sent (l : LeaseSt) (now : Nat) (q : List Nat) (sent : List (Nat × Nat)) :
-    ∃ new, (drain l now q sent).2.2 = sent ++ new ∧ (∀ x ∈ new, x.2 = now) ∧
-      new.length + l.used ≤ max l.max l.used ∧ (new ≠ [] → now < l.created + l.ttl) := by
-  induction q generalizing l sent with
-  | nil => exact ⟨[], by simp [drain], by simp, by simp; omega, by simp⟩
-  | cons r rest ih =>
-    rcases h : allow l now with ⟨ok, l'⟩
-    cases ok
-    · exact ⟨[], by simp [drain, h], by simp, by simp; omega, by simp⟩
-    · obtain ⟨ht, hu, heq⟩ := allow_true l now (by rw [h])
-      rw [h] at heq
-      simp only at heq
-      obtain ⟨new, h1, h2, h3, h4⟩ := ih l' (sent ++ [(r, now)])
-      refine ⟨(r, now) :: new, by simp [drain, h, h1], ?_, ?_, fun _ => ht⟩
-      · intro x hx
-        simp only [List.mem_cons] at hx
-        rcases hx with rfl | hx
-        · rfl
-        · exact h2 x hx
-      · rw [heq] at h3
-        simp only [List.length_cons] at h3 ⊢
-        omega
-
 /-! ### invariants over histories -/
-
-/-- while requests are held the lease in force can grant nothing (so a new request can never
-overtake a held one); the ghost counter of requests sent under the lease in force never exceeds
-the granted number -/
-def Inv (s : State) : Prop :=
-  (s.queue ≠ [] → Spent s.lease s.now) ∧ s.underLease ≤ s.lease.max ∧ s.underLease ≤ s.lease.used
-
-theorem inv_init (cap t0 : Nat) : Inv (init cap t0) := by simp [Inv, init]
-
-theorem step_now_mono (s : State) (e : Ev) : s.now ≤ (step s e).now := by
-  cases e with
-  | request tag t =>
-    simp only [step]
-    rcases allow s.lease (max s.now t) with ⟨ok, l'⟩
-    cases ok <;> simp only [Bool.false_eq_true, if_false, if_true] <;> (try split) <;> exact Nat.le_max_left _ _
-  | lease n ttl t => exact Nat.le_max_left _ _
-
-theorem inv_step (s : State) (e : Ev) (h : Inv s) : Inv (step s e) := by
-  obtain ⟨h1, h2, h3⟩ := h
-  cases e with
-  | request tag t =>
-    simp only [step]
-    rcases ha : allow s.lease (max s.now t) with ⟨ok, l'⟩
-    have hs := allow_snd s.lease (max s.now t)
-    rw [ha] at hs
-    dsimp only at hs
-    obtain ⟨hs1, hs2, hs3, hs4⟩ := hs
-    cases ok
-    · have hsp := allow_false_spent s.lease (max s.now t) (by rw [ha])
-      rw [ha] at hsp
-      dsimp only at hsp
-      simp only [Bool.false_eq_true, if_false]
-      split
-      · exact ⟨fun _ => hsp, by show s.underLease ≤ l'.max; omega, by show s.underLease ≤ l'.used; omega⟩
-      · exact ⟨fun _ => hsp, by show s.underLease ≤ l'.max; omega, by show s.underLease ≤ l'.used; omega⟩
-    · obtain ⟨_, hu, heq⟩ := allow_true s.lease (max s.now t) (by rw [ha])
-      rw [ha] at heq
-      dsimp only at heq
-      simp only [if_true]
-      refine ⟨?_, by show s.underLease + 1 ≤ l'.max; omega, by show s.underLease + 1 ≤ l'.used; rw [heq]; simp; omega⟩
-      intro hq
-      -- the queue was non-empty: the lease was spent, so it cannot have allowed
-      have := spent_allow s.lease (max s.now t) (spent_mono _ _ _ (h1 hq) (Nat.le_max_left _ _))
-      rw [ha] at this
-      simp at this
-  | lease n ttl t =>
-    simp only [step]
-    have hd := drain_sent { max := n, used := 0, created := max s.now t, ttl := ttl } (max s.now t) s.queue s.sent
-    obtain ⟨new, e1, _, e3, _⟩ := hd
-    have hl := drain_lease { max := n, used := 0, created := max s.now t, ttl := ttl } (max s.now t) s.queue s.sent
-    have hu := drain_used { max := n, used := 0, created := max s.now t, ttl := ttl } (max s.now t) s.queue s.sent
-    refine ⟨drain_spent _ _ _ _, ?_, ?_⟩
-    · show (drain _ _ _ _).2.2.length - s.sent.length ≤ (drain _ _ _ _).1.max
-      rw [e1, hl.1]; simp at e3 ⊢; omega
-    · show (drain _ _ _ _).2.2.length - s.sent.length ≤ (drain _ _ _ _).1.used
-      simp only [Nat.zero_add] at hu
-      exact hu
-
-theorem inv_run (cap t0 : Nat) (evs : List Ev) : Inv (run (init cap t0) evs) := by
-  unfold run
-  generalize hs : init cap t0 = s0
-  have h0 : Inv s0 := hs ▸ inv_init cap t0
-  clear hs
-  induction evs generalizing s0 with
-  | nil => exact h0
-  | cons e es ih => exact ih (step s0 e) (inv_step s0 e h0)
-
-def isRequest : Ev → Bool
-  | .request .. => true
-  | .lease .. => false
 
 /-- **no request before the first LEASE** -/
 theorem c14_none_before_first_lease (cap t0 : Nat) (evs : List Ev) (h : ∀ e ∈ evs, isRequest e = true) :
@@ -263,43 +74,6 @@ theorem c14_none_after_ttl (s : State) (e : Ev) :
 LEASE frame never exceeds the number it granted -/
 theorem c14_at_most_granted (cap t0 : Nat) (evs : List Ev) :
     (run (init cap t0) evs).underLease ≤ (run (init cap t0) evs).lease.max := (inv_run cap t0 evs).2.1
-
-/-- the ghost counter is what it claims to be: the growth of `sent` since the latest LEASE -/
-theorem underLease_spec (s : State) (n ttl t : Nat) (post : List Ev) (h : ∀ e ∈ post, isRequest e = true) :
-    (run (step s (.lease n ttl t)) post).underLease = (run (step s (.lease n ttl t)) post).sent.length - s.sent.length ∧
-    (run (step s (.lease n ttl t)) post).lease.max = n ∧
-    s.sent.length ≤ (run (step s (.lease n ttl t)) post).sent.length := by
-  have hd := drain_sent { max := n, used := 0, created := max s.now t, ttl := ttl } (max s.now t) s.queue s.sent
-  have hl := drain_lease { max := n, used := 0, created := max s.now t, ttl := ttl } (max s.now t) s.queue s.sent
-  obtain ⟨new, e1, _⟩ := hd
-  have h0 : (step s (.lease n ttl t)).underLease = (step s (.lease n ttl t)).sent.length - s.sent.length ∧
-      (step s (.lease n ttl t)).lease.max = n ∧ s.sent.length ≤ (step s (.lease n ttl t)).sent.length := by
-    refine ⟨rfl, hl.1, ?_⟩
-    show s.sent.length ≤ (drain _ _ s.queue s.sent).2.2.length
-    rw [e1]; simp
-  generalize step s (.lease n ttl t) = s1 at h0
-  induction post generalizing s1 with
-  | nil => exact h0
-  | cons e es ih =>
-    simp only [run, List.foldl_cons]
-    apply ih (fun x hx => h x (by simp [hx]))
-    have he := h e (by simp)
-    cases e with
-    | lease _ _ _ => simp [isRequest] at he
-    | request tag t' =>
-      simp only [step]
-      rcases ha : allow s1.lease (max s1.now t') with ⟨ok, l'⟩
-      have hs := allow_snd s1.lease (max s1.now t')
-      rw [ha] at hs
-      dsimp only at hs
-      cases ok
-      · simp only [Bool.false_eq_true, if_false]
-        split <;> exact ⟨h0.1, by show l'.max = n; omega, h0.2.2⟩
-      · simp only [if_true]
-        refine ⟨?_, by show l'.max = n; omega, by simp; omega⟩
-        show s1.underLease + 1 = (s1.sent ++ [(tag, max s1.now t')]).length - s.sent.length
-        simp only [List.length_append, List.length_cons, List.length_nil]
-        omega
 
 theorem c14_at_most_granted_count (cap t0 : Nat) (pre : List Ev) (n ttl t : Nat) (post : List Ev)
     (h : ∀ e ∈ post, isRequest e = true) :
